@@ -532,11 +532,21 @@ class WriterThread(threading.Thread):
                             if event:
                                 self._delete_event(txn, event, log)
                         elif operation == "reindex":
+                            # the event was read before this transaction:
+                            # index it only if it is still stored
                             index_name, event = args
-                            INDEXES[index_name].write(event, txn)
+                            if get_event_data(txn, event.id_bytes):
+                                INDEXES[index_name].write(event, txn)
                         elif operation == "bulk_update":
                             index_name, events = args
-                            INDEXES[index_name].bulk_update(events, txn)
+                            INDEXES[index_name].bulk_update(
+                                (
+                                    event
+                                    for event in events
+                                    if event and get_event_data(txn, event.id_bytes)
+                                ),
+                                txn,
+                            )
                         counter["count"] += 1
                 qs = qsize()
                 if qs >= 1000 and qs % 1000 == 0:
